@@ -12,7 +12,9 @@ from typing import Any
 from .specgen import Doc, ref
 
 LEAVES = ["str", "int", "num", "bool", "str:date-time", "str:date", "str:uuid", "str:byte", "str:time", "enum_str", "enum_int",
-          "ref_obj", "ref_enum", "ref_alias_dt", "any", "object_bare", "object_addl_true"]
+          "ref_obj", "ref_enum", "ref_alias_dt", "any", "object_bare", "object_addl_true",
+          # unions of models with disjoint required keys (so that first-match decoding is unambiguous), flat and nested
+          "oneof_refs", "anyof_refs", "anyof_named_union", "oneof_inline_union"]
 WRAPPERS = ["array", "map", "nullable", "inline"]
 
 
@@ -68,6 +70,15 @@ def leaf_node(leaf: str) -> tuple[dict, dict]:
         return {"type": "object"}, {"kind": "free_form", "variant": "bare_object"}
     if leaf == "object_addl_true":
         return {"type": "object", "additionalProperties": True}, {"kind": "free_form", "variant": "addl_true"}
+    if leaf == "oneof_refs":
+        return {"oneOf": [ref("Leaf"), ref("Other")]}, {"kind": "union", "variants": ["Leaf", "Other"]}
+    if leaf == "anyof_refs":
+        return {"anyOf": [ref("Leaf"), ref("Other")]}, {"kind": "union", "variants": ["Leaf", "Other"]}
+    if leaf == "anyof_named_union":      # a member that is itself a (named) union
+        return {"anyOf": [ref("Choice"), ref("Third")]}, {"kind": "union", "variants": ["Leaf", "Other", "Third"]}
+    if leaf == "oneof_inline_union":     # a member that is itself an inline union
+        return ({"oneOf": [{"anyOf": [ref("Leaf"), ref("Other")]}, ref("Third")]},
+                {"kind": "union", "variants": ["Leaf", "Other", "Third"]})
     raise AssertionError(leaf)
 
 
@@ -102,12 +113,18 @@ def document(shapes: list[tuple[int, tuple[str, ...]]]) -> Doc:
         "Leaf": {"type": "object", "properties": {"label": {"type": "string"}, "count": {"type": "integer"}}, "required": ["label"]},
         "Colour": {"type": "string", "enum": ["red", "dark-blue"]},
         "Timestamp": {"type": "string", "format": "date-time"},
+        "Other": {"type": "object", "properties": {"other_key": {"type": "integer"}}, "required": ["other_key"]},
+        "Third": {"type": "object", "properties": {"third_key": {"type": "boolean"}}, "required": ["third_key"]},
+        "Choice": {"oneOf": [ref("Leaf"), ref("Other")]},
     }
     sexp: dict[str, Any] = {
         "Leaf": {"kind": "object", "parents": [], "props": {"label": {"kind": "string", "format": None, "required": True},
                                                             "count": {"kind": "integer", "format": None, "required": False}}},
         "Colour": {"kind": "enum", "values": ["red", "dark-blue"]},
         "Timestamp": {"kind": "prim_alias", "prim": {"kind": "string", "format": "date-time"}},
+        "Other": {"kind": "object", "parents": [], "props": {"other_key": {"kind": "integer", "format": None, "required": True}}},
+        "Third": {"kind": "object", "parents": [], "props": {"third_key": {"kind": "boolean", "format": None, "required": True}}},
+        "Choice": {"kind": "union_alias", "variants": ["Leaf", "Other"]},
     }
     paths = {}
     mf = {}
